@@ -42,6 +42,12 @@ type RevokedSnap struct {
 	Commit channeldb.ChannelCommitment
 }
 
+// FwdRec is the content of one forwarding package as returned by
+// ReceiveRevocation (wire bytes of the locked-in adds and settles/fails).
+type FwdRec struct {
+	Adds, SettleFails [][]byte
+}
+
 // Sim is one simulated execution.
 type Sim struct {
 	R    *simcore.Run
@@ -64,6 +70,9 @@ type Sim struct {
 	RevMsgs [2]map[uint64][]byte
 	locked  int // HTLCs that became locked in after a fault
 	aborted bool
+	// Fwd[x][height] is the forwarding package side x persisted when it
+	// processed the peer's revocation for that remote height.
+	Fwd     [2]map[uint64]*FwdRec
 	lastSig [2][]byte
 	forkNo  int
 	// concurrency probe: both sides had unacked work at once
@@ -84,6 +93,7 @@ func NewSim(r *simcore.Run, cfg Config, mode Mode) *Sim {
 	for i := 0; i < 2; i++ {
 		s.Refs[i] = map[uint64]channeldb.AddRef{}
 		s.RevMsgs[i] = map[uint64][]byte{}
+		s.Fwd[i] = map[uint64]*FwdRec{}
 	}
 	if s.Mode.MaxSteps == 0 {
 		s.Mode.MaxSteps = 120
@@ -297,6 +307,9 @@ func (s *Sim) opRemove(side int, cand Upd) {
 			nm(side), u.Kind, cand.HtlcID, err)
 	}
 	u.Wire = wireBytes(msg)
+	if srcRef != nil {
+		u.HasSrc, u.SrcH, u.SrcI = true, srcRef.Height, srcRef.Index
+	}
 	s.M.Send(side, u)
 	s.Q[side] = append(s.Q[side], msg)
 	r.Logf("%s.%s htlc=%d", nm(side), u.Kind, cand.HtlcID)
@@ -530,6 +543,14 @@ func (s *Sim) deliver(from int) {
 			r.Harness("%v", e)
 		}
 		if fwd != nil {
+			rec := &FwdRec{}
+			for _, u := range fwd.Adds {
+				rec.Adds = append(rec.Adds, wireBytes(u.UpdateMsg))
+			}
+			for _, u := range fwd.SettleFails {
+				rec.SettleFails = append(rec.SettleFails, wireBytes(u.UpdateMsg))
+			}
+			s.Fwd[to][fwd.Height] = rec
 			for i, add := range fwd.Adds {
 				if a, ok := add.UpdateMsg.(*lnwire.UpdateAddHTLC); ok {
 					s.Refs[to][a.ID] = channeldb.AddRef{Height: fwd.Height, Index: uint16(i)}
